@@ -93,9 +93,11 @@ def parse_template(text: str) -> List[Token]:
 
             resolved_tokens.append(fixed_token)
             index_start = fixed_token.position[1]
-            lineno_offset += (
+            # NOTE: `fixed_token.lineno` is already absolute. And we count the newlines in the whole
+            #       tag, because `contents` is stripped of the leading / trailing whitespace.
+            lineno_offset = (
                 fixed_token.lineno - 1  # -1 because lines are 1-indexed
-                + fixed_token.contents.count("\n")
+                + text.count("\n", broken_token_start, index_start)
             )  # fmt: skip
         else:
             break
